@@ -8,11 +8,14 @@
     were consulted need an explicit dependency on the whole collection.  See the comment block in pyvc/effects.py.
     `weakref` / garbage-collection lifetime of the cached canvases is out of scope here.
 
+(c) finalized canvases refuse mutation: in every public method / property setter of the canvas classes each write of the
+    canvas is reached only after `if self.widget_info [and self.cacheable]: raise self._finalized_error`.
+
 The deductive contracts of CanvasCache / the render wrappers / Canvas.finalize are in contracts/C06_store.py."""
 import urwid
 
 from pyvc.api import REGISTRY, Contract
-from pyvc.effects import analyse_class, analyse_render_deps
+from pyvc.effects import analyse_class, analyse_finalized_guard, analyse_render_deps
 
 CLASSES = [
     urwid.Text, urwid.Edit, urwid.IntEdit, urwid.Divider, urwid.SolidFill, urwid.Padding, urwid.Filler, urwid.Pile,
@@ -78,6 +81,8 @@ class _EffectsTask(Contract):
         self.target = f"{kind}:{cls.__module__}.{cls.__name__}"
         if kind == "deps":
             self.group = "render-depends-on-consulted-children"
+        if kind == "guard":
+            self.group = "finalized-canvas-refuses-mutation"
 
 
 def _make(cls, kind="effects"):
@@ -86,15 +91,24 @@ def _make(cls, kind="effects"):
     return t
 
 
+# (c) finalized canvases refuse mutation: every canvas class of urwid/canvas.py
+from urwid import canvas as _canvas  # noqa: E402
+
+GUARD_CLASSES = [_canvas.Canvas, _canvas.TextCanvas, _canvas.SolidCanvas, _canvas.CompositeCanvas]  # BlankCanvas has no writing method
+
 for _c in CLASSES:
     _make(_c)
 for _c in DEP_CLASSES:
     _make(_c, "deps")
+for _c in GUARD_CLASSES:
+    _make(_c, "guard")
 
 
 def run_effects(target):
     t = REGISTRY[target]
     if t.kind == "deps":
         return analyse_render_deps(t.cls_, DEP_EXEMPT)
+    if t.kind == "guard":
+        return analyse_finalized_guard(t.cls_)
     results, rs = analyse_class(t.cls_, EXEMPT)
     return results, rs
